@@ -100,6 +100,11 @@ func (p *HTTPProxy) ServeHTTPWithUpstream(
 		r = r.WithContext(ctx)
 	}
 
+	// The Piko headers must reach the next node, so don't allow the client to
+	// list them as hop-by-hop headers, which the reverse proxy would remove
+	// (including the forward marker added below).
+	removePikoConnectionOptions(r.Header)
+
 	r.Header.Set("x-piko-forward", "true")
 
 	r = r.WithContext(context.WithValue(r.Context(), endpointContextKey, endpointID))
@@ -108,6 +113,34 @@ func (p *HTTPProxy) ServeHTTPWithUpstream(
 	r = r.WithContext(context.WithValue(r.Context(), upstreamContextKey, upstream))
 
 	p.proxy.ServeHTTP(w, r)
+}
+
+// removePikoConnectionOptions removes any 'x-piko-' options from the
+// 'Connection' header.
+func removePikoConnectionOptions(h http.Header) {
+	found := false
+	var options []string
+	for _, v := range h.Values("Connection") {
+		for _, option := range strings.Split(v, ",") {
+			option = strings.TrimSpace(option)
+			if option == "" {
+				continue
+			}
+			if strings.HasPrefix(strings.ToLower(option), "x-piko-") {
+				found = true
+				continue
+			}
+			options = append(options, option)
+		}
+	}
+	if !found {
+		return
+	}
+
+	h.Del("Connection")
+	if len(options) > 0 {
+		h.Set("Connection", strings.Join(options, ", "))
+	}
 }
 
 func (p *HTTPProxy) dialUpstream(ctx context.Context, _, _ string) (net.Conn, error) {
